@@ -1,6 +1,7 @@
 import Enc.Lemmas.Proto
 import Enc.Model.ProtoTo
 import Enc.Lemmas.ProtoTo
+import Enc.Lemmas.ProtoMsgMain
 /-!
 # C16 — proto.MarshalTo honours the caller's buffer for every size
 Property theorems only. `encodeTo … avail` is the model of the buffer-checked encoders (Enc/Model/ProtoTo.lean).
@@ -53,5 +54,45 @@ example : (encodeTo (.struct (.cons 1 false false false .int32 (.cons 2 false tr
       = .ok [0x08, 0x05, 0x10, 0x00, 0x10, 0x01]) := by
   rw [Lemmas.ProtoTo.encodeTo_spec, Lemmas.ProtoTo.encodeTo_spec]
   decide +kernel
+
+/-! ## … with user-defined types (proto.Message implementers, gogo-style custom types) in the message
+
+`Model.ProtoMsg`: `encodeToUsr ops` is the buffer-checked encoder with the user's methods as parameters (`ops : UserOps`;
+messageEncodeFuncOf / customEncodeFuncOf at the opaque leaves `Codec.message`). USER CONTRACT `LeavesOK ops c v`: at every user
+value inside `v`, `Marshal` succeeds and fills exactly `Size()` bytes. `absV ops c v` is `v` with every user value replaced by
+the bytes it marshals to. Proofs in Enc/Lemmas/ProtoMsg{Link,Main}.lean. -/
+
+open Lemmas.ProtoMsg in
+/-- **MarshalTo honours the buffer with opaque fields.** Under the user contract, for every codec tree, value, flags and
+EVERY buffer length: success exactly when `avail ≥ Size`, then exactly the bytes of `Marshal` (the payload-level encoding
+with each user value's own bytes in place); otherwise `io.ErrShortBuffer` — before any user method is asked to write, and
+never a panic. -/
+theorem marshalTo_opaque (ops : UserOps) (c : Codec) (v : Val) (fl : Flags) (avail : Nat) (h : LeavesOK ops c v) :
+    encodeToUsr ops c v fl avail
+      = if sizeUsr ops c v fl ≤ avail then .ok (encode c (absV ops c v) fl) else .err "shortBuffer" :=
+  Lemmas.ProtoMsg.encodeToUsr_spec ops c v fl avail h
+
+open Lemmas.ProtoMsg in
+/-- … at the entry point, enough room: the result of `Marshal(v)` -/
+theorem marshalTo_opaque_enough (ops : UserOps) (t : Ty) (v : Val) (avail : Nat) (h : LeavesOK ops (codecOf t) v)
+    (ha : marshalSizeUsr ops t v ≤ avail) : marshalToUsr ops t v avail = marshalUsr ops t v :=
+  Lemmas.ProtoMsg.marshalToUsr_enough ops t v avail h ha
+
+open Lemmas.ProtoMsg in
+/-- … every shorter buffer: io.ErrShortBuffer -/
+theorem marshalTo_opaque_short (ops : UserOps) (t : Ty) (v : Val) (avail : Nat) (h : LeavesOK ops (codecOf t) v)
+    (ha : avail < marshalSizeUsr ops t v) : marshalToUsr ops t v avail = .err "shortBuffer" :=
+  Lemmas.ProtoMsg.marshalToUsr_short ops t v avail h ha
+
+open Lemmas.ProtoMsg in
+/-- non-vacuity: `struct{ A int32; U T; P *T; L []T; M map[string]T }` with a user type `T` whose `Marshal` writes its state
+REVERSED (`revOps`); Size 25, tried with 24 and 25 bytes; and RawMessage (`rawOps`, identity on bytes) satisfies the contract
+at every value of every type -/
+example : LeavesOK revOps exUC exUV
+    ∧ encodeToUsr revOps exUC exUV {} 24 = .err "shortBuffer"
+    ∧ encodeToUsr revOps exUC exUV {} 25
+        = .ok [0x08, 7, 0x12, 3, 3, 2, 1, 0x1a, 2, 5, 4, 0x22, 1, 6, 0x22, 0, 0x2a, 7, 0x0a, 1, 0x6b, 0x12, 2, 9, 8]
+    ∧ ∀ c v, LeavesOK rawOps c v :=
+  ⟨exU_ok, by decide +kernel, by decide +kernel, leavesOK_rawOps⟩
 
 end Enc.Props.C16
